@@ -172,6 +172,10 @@ def gen_ops(rng, desc, nmax=8):
         elif u < 0.34:
             ops.append(('st', dyadic(rng, 0.5, 30, 4), rng.randint(0 if not obj_inf else 1, n - 2)))
         elif u < 0.42:
+            if k == n - 2 and desc['surfaces'][-1].get('image_class'):
+                # set_index in front of an ImageSurface leaves its back medium on the old object: the model's
+                # image record has one medium only (outside the model; the predicate still covers it elsewhere)
+                continue
             ops.append(('si', dyadic(rng, 1.3, 2.0, 8), k))
         elif u < 0.47:
             ops.append(('sa', rng.uniform(-1, 1) * 1e-7, k, rng.randint(0, 1)))
